@@ -1128,11 +1128,14 @@ func (l *Lowerer) lowerOverride(o *parser.OverrideDecl) error {
 	}
 
 	l.module.Overrides = append(l.module.Overrides, override)
-	l.moduleOverrides[o.Name] = overrideHandle
 
 	// Build and store the simplified init expression for later use
 	// in buildGlobalExpressions (to create the global expression for this override).
+	// The name is registered afterwards: an initializer cannot refer to the override it declares.
 	if o.Init != nil {
+		if mentionsIdent(o.Init, o.Name) {
+			return fmt.Errorf("override '%s' is used in its own initializer", o.Name)
+		}
 		initExpr := l.buildOverrideInitExpr(o.Init)
 		if initExpr != nil {
 			if l.overrideInitExprs == nil {
@@ -1141,8 +1144,40 @@ func (l *Lowerer) lowerOverride(o *parser.OverrideDecl) error {
 			l.overrideInitExprs[overrideHandle] = initExpr
 		}
 	}
+	l.moduleOverrides[o.Name] = overrideHandle
 
 	return nil
+}
+
+// mentionsIdent reports whether the override initializer expr refers to name.
+func mentionsIdent(expr parser.Expr, name string) bool {
+	switch e := expr.(type) {
+	case *parser.Ident:
+		return e.Name == name
+	case *parser.BinaryExpr:
+		return mentionsIdent(e.Left, name) || mentionsIdent(e.Right, name)
+	case *parser.UnaryExpr:
+		return mentionsIdent(e.Operand, name)
+	case *parser.CallExpr:
+		for _, a := range e.Args {
+			if mentionsIdent(a, name) {
+				return true
+			}
+		}
+	case *parser.ConstructExpr:
+		for _, a := range e.Args {
+			if mentionsIdent(a, name) {
+				return true
+			}
+		}
+	case *parser.IndexExpr:
+		return mentionsIdent(e.Expr, name) || mentionsIdent(e.Index, name)
+	case *parser.MemberExpr:
+		return mentionsIdent(e.Expr, name)
+	case *parser.BitcastExpr:
+		return mentionsIdent(e.Expr, name)
+	}
+	return false
 }
 
 // inferOverrideType infers the concrete type for an override from its init expression.
